@@ -191,6 +191,7 @@ func TestVerifC04(t *testing.T) {
 		for _, mf := range []bool{false, true} {
 			pinned = append(pinned, base{4, []string{"member_ok", ev, "joiner_ok"}, 1, mf, false})
 			if ev == "member_dead" {
+				pinned = append(pinned, base{4, []string{"member_ok", "member_dead_long", "joiner_ok"}, 1, mf, false})
 				for _, hl := range []string{"joiner_heals2", "joiner_heals3", "joiner_heals4", "joiner_heals5"} {
 					pinned = append(pinned, base{4, []string{"member_ok", "member_dies1", hl}, 1, mf, false})
 				}
@@ -285,7 +286,7 @@ func TestVerifC04(t *testing.T) {
 			for i, c := range b.cls {
 				h := fmt.Sprintf("h%d", i+2)
 				switch c {
-				case "member_dead", "joiner_dead":
+				case "member_dead", "joiner_dead", "member_dead_long":
 					s.W.Crash(h)
 				case "member_dubious":
 					s.W.SetNet(h, "dubious")
@@ -299,7 +300,7 @@ func TestVerifC04(t *testing.T) {
 		noInst := map[string]bool{}
 		for i, c := range b.cls {
 			// a marked host's own mysync would clear the mark at once: it is kept down here
-			if c == "member_dead" || c == "joiner_dead" || c == "member_isolated" || c == "marked_member" {
+			if c == "member_dead" || c == "member_dead_long" || c == "joiner_dead" || c == "member_isolated" || c == "marked_member" {
 				noInst[fmt.Sprintf("h%d", i+2)] = true
 			}
 		}
@@ -320,9 +321,20 @@ func TestVerifC04(t *testing.T) {
 					}
 					obs.refreshNotRepl("h1")
 					prev := s.onEv
+					preset := false
 					s.onEv = func(ev *verifsim.TraceEvent, wl bool) {
 						if prev != nil {
 							prev(ev, wl)
+						}
+						if !preset && ev.K == "app" && ev.Op == "Enter" && ev.Arg == "Manager" && s.insts[ev.By] != nil {
+							// "member_dead_long": this manager has been watching the member fail for an hour already, so its
+							// eviction is due in the very iteration in which another host can join
+							preset = true
+							for i, c := range b.cls {
+								if c == "member_dead_long" {
+									s.insts[ev.By].app.t.Set(NodeFailedAt, fmt.Sprintf("h%d", i+2), time.Now().Add(-time.Hour))
+								}
+							}
 						}
 						c04Observe(obs, ev, wl, b.mf)
 					}
@@ -392,7 +404,7 @@ func TestVerifC04(t *testing.T) {
 		// census): the eviction guard must then refuse to shrink the list
 		evicts, joins := false, false
 		for _, c := range b.cls {
-			evicts = evicts || c == "member_dead" || c == "member_dies1" || c == "member_stopped" || c == "member_ioerr" || c == "member_diverged"
+			evicts = evicts || c == "member_dead" || c == "member_dead_long" || c == "member_dies1" || c == "member_stopped" || c == "member_ioerr" || c == "member_diverged"
 			joins = joins || c == "joiner_ok" || c == "joiner_lag_progress"
 		}
 		if evicts {
@@ -402,10 +414,31 @@ func TestVerifC04(t *testing.T) {
 				}
 			}
 		}
+		for _, c := range b.cls {
+			if c == "member_dead_long" {
+				// the swap happens in the first manager activation: probes are counted from the very start
+				for occ := 1; occ <= 8; occ++ {
+					cases = append(cases, &faultSpec{Chan: "sql", Stmt: "Ping", At: "h1", Occ: occ, Kind: "diebefore", FromStart: true, By: mgr})
+				}
+				// ... and the master dies right after each call made to a joining host in that activation (the
+				// eviction guard comes after them and must then refuse)
+				for i2, c2 := range b.cls {
+					if c2 == "joiner_ok" {
+						for _, st := range []string{"SemiSyncSetSlave", "StopIO", "StartIO", "SetFlush", "SetSyncBinlog"} {
+							cases = append(cases, &faultSpec{Chan: "sql", Stmt: st, At: fmt.Sprintf("h%d", i2+2), Occ: 1, Kind: "crashhost_after", Target: "h1", FromStart: true})
+						}
+					}
+				}
+				break
+			}
+		}
 		for _, f := range cases {
 			sc2 := mk()
 			sc2.Fault = f
 			sc2.ID = fmt.Sprintf("%s-%s-%s@%s#%d", id, f.Kind, f.Stmt, f.At, f.Occ)
+			if f.FromStart {
+				sc2.ID += "-by" + f.By + f.Target
+			}
 			_, rows := runOne(&sc2)
 			runs++
 			for _, r := range rows {
